@@ -1,6 +1,6 @@
 SPECIFICATION GenSpec
 CONSTANTS SmallIds = {1, 2} Widths = {1, 2} MaxTok = 4 MaxSlots = 10
-  Texts <- CTexts HRs <- CHRs
+  Texts <- CTextsT HRs <- CHRs
 CONSTRAINT Bound
 VIEW Skel
 ACTION_CONSTRAINT Emit
